@@ -21,7 +21,7 @@ func init() {
 			"plus seeded random unions of two or three predicate-free paths of 1-3 steps over all axes (overlapping and disjoint operands, attributes/text/comments, nested unions, the sequence form p/(a, b)). Non-trivial: both operands non-empty; distinct by (expression text, document, context).",
 		Assume:        []string{"reference evaluator internal/xref; node identity in the harness is pointer identity"},
 		MinNontrivial: tierN(6000, 80000),
-		Required:      []string{"shape:unionQuery"},
+		Required:      []string{},
 		Families: []Family{
 			witnessFamily("C11"),
 			{Name: "pairs", N: tierN(240, 6000), Run: c11Pairs},
